@@ -301,6 +301,10 @@ fn run_rec(input: &Value) -> Option<Value> {
 }
 
 pub fn gen(r: &mut Rng) -> Value {
+    if r.chance(1, 25) {
+        // a function called through an alias of it (`alias af f` ; `out = af a1`): still a call of f
+        return json!({"kind": "alias_call", "scoped": r.chance(1, 2), "arg": r.pick(&["a1", "x y", ""]), "ret": r.pick(&["r1", "", "two words"])});
+    }
     match r.below(5) {
         0 => return gen_cond(r),
         1 => return gen_rec(r),
@@ -361,9 +365,55 @@ fn ret_inside_for(block: &Vec<Value>, in_for: bool) -> bool {
 }
 
 /// structural class of an input, used to tell a listed known finding from a new violation
+/// `alias af f` ; `out = af <arg>`: the call binds ${1}, runs the body once, stores the returned value and resumes
+/// after the call line. A watchdog raises the halt flag after 2 s so that a run that never ends by itself is observed.
+fn run_alias_call(input: &Value) -> Option<Value> {
+    use duckscript::types::env::Env;
+    use std::sync::atomic::{AtomicBool, Ordering};
+    use std::sync::Arc;
+    let scoped = input["scoped"].as_bool()?;
+    let arg = input["arg"].as_str()?;
+    let ret = input["ret"].as_str()?;
+    let script = format!("count = set 0\nfn {}f\ncount = calc ${{count}} + 1\nseen = set \"${{1}}\"\nreturn \"{}\"\nend\nalias af f\nout = af \"{}\"\nafter = set reached\n",
+        if scoped { "<scope> " } else { "" }, ret, arg);
+    let mut context = Context::new();
+    duckscriptsdk::load(&mut context.commands).ok()?;
+    let halt = Arc::new(AtomicBool::new(false));
+    let h2 = halt.clone();
+    let done = Arc::new(AtomicBool::new(false));
+    let d2 = done.clone();
+    let dog = std::thread::spawn(move || {
+        for _ in 0..200 {
+            std::thread::sleep(std::time::Duration::from_millis(10));
+            if d2.load(Ordering::SeqCst) { return; }
+        }
+        h2.store(true, Ordering::SeqCst);
+    });
+    let env = Env::new(Some(Box::new(std::io::sink())), Some(Box::new(std::io::sink())), Some(halt.clone()));
+    let res = runner::run_script(&script, context, Some(env));
+    done.store(true, Ordering::SeqCst);
+    let _ = dog.join();
+    if halt.load(Ordering::SeqCst) {
+        return Some(json!({"script": script, "what": "a function called through an alias: the run never ends by itself (stopped by the embedder's halt flag after 2 s)"}));
+    }
+    match res {
+        Err(e) => Some(json!({"script": script, "error": e.to_string()})),
+        Ok(ctx) => {
+            let get = |k: &str| ctx.variables.get(k).cloned();
+            let want_out = if ret.is_empty() { None } else { Some(ret.to_string()) };
+            // (unscoped: the body's `seen` / `count` are the caller's variables)
+            let ok = get("out") == want_out && get("after") == Some("reached".to_string()) && (scoped || (get("count") == Some("1".to_string()) && get("seen").unwrap_or_default() == arg));
+            if ok { None } else { Some(json!({"script": script, "what": "a function called through an alias did not behave like a call of it", "out": get("out"), "after": get("after"), "count": get("count"), "seen": get("seen")})) }
+        }
+    }
+}
+
 pub fn class_of(input: &Value) -> &'static str {
     let body = input["body"].as_array().cloned().unwrap_or_default();
     let ncalls = input["calls"].as_array().map(|c| c.len()).unwrap_or(0);
+    if input["kind"].as_str() == Some("alias_call") {
+        return "function-called-through-an-alias";
+    }
     let positional_out = input["calls"].as_array().map(|cs| cs.iter().any(|c| matches!(c["out"].as_str(), Some("1") | Some("2") | Some("3")))).unwrap_or(false);
     if positional_out {
         "output-variable-named-like-a-positional-argument"
@@ -383,6 +433,7 @@ pub fn run(input: &Value) -> Option<Value> {
 
 fn run_inner(input: &Value) -> Option<Value> {
     match input["kind"].as_str() {
+        Some("alias_call") => return run_alias_call(input),
         Some("cond") => return run_cond(input),
         Some("rec") => return run_rec(input),
         _ => {}
